@@ -34,6 +34,19 @@ pub fn workloads(thorough: bool) -> Vec<(String, HCfg)> {
     out
 }
 
+pub fn regression_holds(payload: &serde_json::Value, prop: &str) -> bool {
+    let name = payload["workload"].as_str().unwrap_or("");
+    let hist = crate::hsim::parse_history(payload["history"].as_str().unwrap_or("[]"));
+    let wl = workloads(true);
+    let mut cfg = match wl.iter().find(|(n, _)| n == name) {
+        Some((_, c)) => c.clone(),
+        None => return true,
+    };
+    cfg.force_nonce = prop == "C19";
+    let monitors = Monitors { c03: prop == "C03", c04: prop == "C04", c13: prop == "C13", c15: false, c19: prop == "C19" };
+    rt::run(run_history(&cfg, monitors, &hist, true)).violation.is_none()
+}
+
 pub fn replay(payload: &serde_json::Value, prop: &str) {
     let name = payload["workload"].as_str().unwrap_or("");
     let hist = crate::hsim::parse_history(payload["history"].as_str().unwrap_or("[]"));
